@@ -252,6 +252,7 @@ def edits_for(cfg: Dict[str, Any], task: str) -> List[Tuple[str, Any]]:
     out.append(("add_other_range_zero", 0.0))
     out.append(("add_other_range_zero", 0))
     out.append(("add_partial_other_range", None))
+    out.append(("ring_without_min", None))
     out.append(("set_task", "foo"))
     out.append(("set_task", "sensing" if task != "sensing" else "detection"))
     out.append(("add_optional", "max_matchable_radii"))
@@ -281,6 +282,12 @@ def apply_edit(cfg: Dict[str, Any], e: Tuple[str, Any]) -> None:
             cfg.update(max_x_position=100.0, max_y_position=100.0, max_distance=100.0, min_distance=arg)
     elif kind == "add_partial_other_range":
         cfg.update(max_distance=100.0)
+    elif kind == "ring_without_min":
+        # a distance ring of which only the outer bound is written (no min_distance key at all): not a complete bound
+        cfg.pop("max_x_position", None)
+        cfg.pop("max_y_position", None)
+        cfg.pop("min_distance", None)
+        cfg.update(max_distance=80.0)
     elif kind == "set_task":
         cfg["evaluation_task"] = arg
     elif kind == "add_optional":
